@@ -418,14 +418,17 @@ private theorem ctor_wellformed :
 set_option maxRecDepth 1000000 in
 private theorem table_ctor : (allCtors.all neverWritesInputs) = true := by decide +kernel
 
-/-- **constructors_never_write_arguments** (the first clause of C20 for constructors).  For every `__init__` of the package's
-public classes — `SOPClass`, `Segmentation`, `ParametricMap`, `SCImage`, the SR / KO / ANN / PR / legacy SOP classes, every
-content item, template and shared content class, `Volume` / `VolumeGeometry`, and the alternative constructors (`from_source_image`,
-`from_segmentation`, `from_ref_dataset`, `from_code`, `from_colors`, `from_components`, …); 139 programs regenerated from the source — in every run (any valuation of
-the conditions the constructor branches on, any effect of its writes) each argument region `r < nIn` ends with the content it
-started with: the constructor assigns to `self` and to objects it allocated, never to (a part of) what it was given.
-For constructors with more than 2^5 paths (marked `(arms merged)`, 15 of them) the arms of branches are merged (weak update at
-the join) instead of enumerated — a coarser but still sound abstraction of the same code. -/
+/-- **constructors_never_write_arguments** (the first clause of C20 for constructors).  For every `__init__` and alternative
+constructor of the package's public classes (139 programs regenerated from the source, none skipped) — extracted
+**interprocedurally**: own and inherited methods (`super().__init__` up to `SOPClass.__init__`), helper functions of the whole
+package (`_convert_legacy_to_enhanced`, the `_add_*` helpers of the presentation states, `collect_evidence`, `encode_frame`, …),
+closures and generators are inlined to depth 4; an internal callee that is handed a reference and cannot be inlined would put the
+constructor on `allCtorSkipped` (see `ctor_extraction_complete`); external pydicom / numpy / builtin callees are assumed not to write
+their arguments and are listed per entry in the generated files — in every run (any valuation of the conditions, loops unrolled
+twice, any effect of writes) each argument region `r < nIn` ends with the content it started with.  Shared `DataElement` objects
+(`Dataset.add`) are cells: assigning an attribute of a data set writes the elements that were shared into it.
+Constructors with more than 2^5 paths (marked `(arms merged)`) have the arms of their branches merged (weak update at the join)
+instead of enumerated — a coarser but still sound abstraction of the same code. -/
 theorem constructors_never_write_arguments (e : Entry) (he : e ∈ allCtors)
     (v : Nat) (w : Nat → Nat → Nat) (store : Nat → Nat) (r : Nat) (hr : r < e.nIn) :
     (run e.prog e.nIn v w store).store r = store r := by
